@@ -1,0 +1,21 @@
+//go:build verif
+
+// Contracts for the deductive verification in /verif (comment-only; compiled to
+// nothing). Syntax: see /verif/DESIGN.md section 2.2.
+package keeper
+
+//@ bind github.com/goatnetwork/goat/x/bitcoin/types.RelayerKeeper => github.com/goatnetwork/goat/x/relayer/keeper
+
+// ---- C20: execution-layer parameter requests keep the bounds -----------------
+
+//@ func (Keeper).ProcessBridgeRequest
+//@ property C20
+//@ requires inv20: st.bitcoin.Params.DepositTaxRate < 10000 && st.bitcoin.Params.MinDepositAmount >= 1000 && st.bitcoin.Params.ConfirmationNumber >= 1
+//@ ensures inv20: err == nil ==> st.bitcoin.Params.DepositTaxRate < 10000 && st.bitcoin.Params.MinDepositAmount >= 1000 && st.bitcoin.Params.ConfirmationNumber >= 1
+//@ loop 0 invariant true
+//@ loop 1 invariant true
+//@ loop 2 invariant true
+//@ loop 3 invariant rate: param.DepositTaxRate < 10000
+//@ loop 4 invariant depth: param.ConfirmationNumber >= 1
+//@ loop 5 invariant min: param.MinDepositAmount >= 1000
+//@ modifies st.bitcoin.Params, st.bitcoin.Withdrawals, st.bitcoin.EthTxQueue
